@@ -164,7 +164,12 @@ pub fn mut_scenario(o: &MutOpts, prefix: &str) -> Scenario {
         scen::add_victim(&mut img, &g, 1);
     }
     let cfg = make_cfg(img, Front::Raw, o.moving_clock);
-    let mut sc = Scenario::new(&mut_name(o, prefix), cfg, mut_prelude(), mut_alphabet(o.alphabet, g.cluster_bytes()), o.depth);
+    let mut alpha = mut_alphabet(o.alphabet, g.cluster_bytes());
+    if o.free.is_none() {
+        // filling a volume with tens of thousands of free clusters says nothing new and costs seconds per call
+        alpha.retain(|op| !matches!(op, Op::Fill { .. }));
+    }
+    let mut sc = Scenario::new(&mut_name(o, prefix), cfg, mut_prelude(), alpha, o.depth);
     // canonical file slot: an Open may only use the lowest free file slot
     sc.tag = Some(std::sync::Arc::new((o.clone(), prefix.to_string())));
     sc.filter = Some(Box::new(|w: &World, op: &Op| match op {
@@ -647,7 +652,10 @@ impl Oracle for StaleTwin {
 }
 
 pub fn twin_compare(sc_stale: &Scenario, sc_good: &Scenario, hist: &[Op], st: &Step, out: &mut Vec<Violation>) {
-    let (_, st2) = sc_good.replay_observed(hist);
+    let (w2, st2) = sc_good.replay_observed(hist);
+    if w2.dead && !matches!(st.res, Res::Panic(_)) {
+        return; // the twin itself panicked earlier: reported by the twin's own exploration
+    }
     if st.res.class() != st2.res.class() {
         out.push(viol(
             "C16",
@@ -905,6 +913,12 @@ pub fn c16_scenarios(tier: &str) -> Vec<(String, ScenMaker)> {
         out.push(maker(base_opts(k, fr, if quick { 4 } else { 6 }, Alpha::Space), "fat"));
     }
     out.push(maker(base_opts(VolKind::V16a, None, if quick { 3 } else { 4 }, Alpha::Mutate), "fat"));
+    // a full parent directory and one / two free clusters: mkdir takes the last cluster and then cannot grow the parent
+    for fr in [1usize, 2] {
+        let mut o = base_opts(VolKind::V32a, Some(fr), if quick { 4 } else { 5 }, Alpha::Space);
+        o.sub_free_slots = 0;
+        out.push(maker(o, "fsinfo-fullsub"));
+    }
     // FSInfo variants on FAT32
     let infos: &[FsInfo] = &[FsInfo::Correct, FsInfo::Unknown, FsInfo::StaleSmall, FsInfo::StaleLarge, FsInfo::NextOutOfRange];
     for &fi in infos {
